@@ -476,6 +476,17 @@ func check(prop, tier string, spec propSpec, only string) int {
 		for _, m := range merr {
 			fmt.Fprintln(os.Stderr, "MACHINERY ERROR:", m)
 		}
+		// an engine that could not do its work decides nothing; violations found by the engines that
+		// did run stand (exit 1), otherwise the run as a whole is broken (exit 2)
+		if len(results) > 0 {
+			for _, r := range results {
+				r.Exhaustive = false
+				r.Notes = append(r.Notes, fmt.Sprintf("%d worker(s) of this run ended with a machinery error", len(merr)))
+			}
+			if rc := aggregate(prop, tier, seed, spec, results, b, time.Since(start)); rc == 1 {
+				return 1
+			}
+		}
 		return 2
 	}
 	if len(results) == 0 {
@@ -655,7 +666,7 @@ func doReplay(path string) int {
 	bd.tier = "quick"
 	defer bd.cleanup()
 	for _, e := range spec.Engines {
-		if e.Harness == w.Engine || e.Name == w.Engine || len(spec.Engines) == 1 {
+		if e.Harness == w.Engine || e.Name == w.Engine || e.Harness+"/"+e.Name == w.Engine || len(spec.Engines) == 1 {
 			bin := bd.bin(e.Harness, e.Overlay, false)
 			args := []string{"--prop", w.Property, "--replay", path}
 			if e.Name != "" {
